@@ -2,6 +2,7 @@
 lock first, lock held for the handle's lifetime, lock released last."""
 import re
 import core, lib
+from props import shared
 from core import call_matches, call_names, op_place, op_local, backward_slice
 
 LEVEL = 'proof'
@@ -201,7 +202,7 @@ def run(ctx):
     outside = sorted(c for c in direct_un if c != 'db::Db::drop_inner' and 'db::Db::drop_inner' not in F.transitive_callers([c]))
     ctx.ob('3a unlock-callers', 'K4-confinement', ','.join(sorted(direct_un)), 'the lock is released only on the Db::drop_inner path', bool(direct_un) and not outside and 'db::Db::drop_inner' in un_reach, 'callers %s' % sorted(direct_un))
     if d:
-        un = lib.must_sites(d, UNLOCK)
+        un = lib.sites_reaching(d, UNLOCK)     # (conditional since F76: only the last owner of the DbInner unlocks)
         kl = d.call_sites('db::DbInner::kill_logs')
         lib.precedes(ctx, '3b kill_logs-before-unlock', d, kl, un, 'the final drain/cleanup (kill_logs) completes before the lock is released')
         joins = lib.sites_reaching(d, ['re:JoinHandle.*::join$'])
@@ -261,6 +262,7 @@ def run(ctx):
     if False:
         pass
         lib.must_pass(ctx, '3f drop_inner-always-unlocks', d, un, 'every path through drop_inner reaches unlock', cut_errors=False)
+    shared.lock_kept_while_the_database_is_shared(ctx, '3l')       # F76: a tree reader that outlives the handle keeps the directory locked
     dr = ctx.body('<db::Db as std::ops::Drop>::drop')
     if dr:
         lib.must_pass(ctx, '3g Drop-calls-drop_inner', dr, dr.call_sites('db::Db::drop_inner'), 'Drop for Db always runs drop_inner', cut_errors=False)
